@@ -11,6 +11,7 @@ ops: reset | new h | del h | copy i j | move h h | ren h h | vis h b b | act i |
      grp h* | ungrp | defn k h | setc h v | save | chk h | gidx h | gnm i
      | calc k id entries  (stateless: DeleteSheet of the sheet with id `id` in a k-sheet workbook whose
      calcChain is `entries` = i.hexR,… ; answer: the remaining chain or nil)
+     | calcc k from to entries  (stateless: CopySheet(from, to) in a k-sheet workbook with that calcChain)
      (gidx / gnm: pure reads of GetSheetIndex / GetSheetName on the current state)
 -/
 namespace XlModel.Drv.C16
@@ -132,6 +133,16 @@ def stepLine (st : St × Spec.Book) (w : List String) : (St × Spec.Book) × Str
     | some k, some id, some cs =>
       if 2 ≤ k ∧ k ≤ 6 ∧ 1 ≤ id ∧ id ≤ k then (st, showCalc (deleteCalcChain cs id [])) else (st, "bad-op")
     | _, _, _ => (st, "bad-op")
+  | ["calcc", k, f, t, e] => match (if k.length ≤ 9 then k.toNat? else none),
+      (if f.length ≤ 9 then f.toNat? else none), (if t.length ≤ 9 then t.toNat? else none), parseCalc e with
+    | some k, some f, some t, some cs =>
+      if 2 ≤ k ∧ k ≤ 6 ∧ f < k ∧ t < k ∧ f ≠ t then
+        let s := Sheets.run Sheets.init ((List.range (k - 1)).map fun j => Op.new (bytesOf s!"Sheet{j + 2}"))
+        match copySheet s f t with
+        | .ok _ => (st, showCalc (copySheetCalc s t cs))
+        | .error e => (st, e.tag)
+      else (st, "bad-op")
+    | _, _, _, _ => (st, "bad-op")
   | ["gidx", h] => match unhexS h with
     | some n => (st, match getSheetIndex st.1 n with
       | .ok (some i) => s!"{i}"
